@@ -1,4 +1,5 @@
-import UsualProofs.C01.CapOps
+import UsualProofs.C01.NoDrift
+import UsualProofs.C01.LiftThm
 /-!
 # C19 — talloc memory limit is a hard cap whose accounting never drifts
 
@@ -12,6 +13,15 @@ history replayed on the real library by the correspondence run (corpus/C19/*.ops
 `acctOK : State → Bool` (lean/Usual/C01/Observe.lean) is THE accounting invariant: every
 `.memlimit` chunk records exactly Σ (ALIGN(size) + sizeof header) over the chunks beneath its
 context (the chunk itself excepted).  The driver evaluates it on every state of every run.
+Its Prop-level twin is `AcctInv` (UsualProofs/C01/Acct.lean): `lb.lcur = chargeUnder s ctx l`
+with `chargeUnder s ctx l = Σ x < heap.length, if x ≠ l ∧ Anc s ctx x then totalSize (size x) else 0`
+and `Anc s a x` = "`a` is a proper ancestor of `x` along primary-parent pointers";
+`acctOK_iff` proves the two equal in every well-formed state with acyclic holder graph.
+
+`Reach` = states reached from the empty heap by public operations whose arguments are live user
+objects and that keep the holder graph acyclic (`OpOK`, as in C01), every operation except
+`talloc_disable_null_tracking`, with the two ghost flags of the model clear (they are printed on
+every state of every correspondence run and were never set).
 -/
 namespace UsualProps.C19
 open Usual.C01
@@ -57,6 +67,129 @@ theorem failed_allocation_changes_nothing (s : State) (rk : Nat → Nat) (hwf : 
 example :
     let s := runOps Cfg.fixed {} setup
     (step Cfg.fixed s (.alloc (some 1) 100 false true)).1.heap = s.heap := by decide
+
+/-! ## the accounting invariant of the repaired code -/
+
+/-- states reachable by operations inside the quantifier (ghost flags clear) -/
+inductive Reach : State → Prop
+  | init : Reach {}
+  | step (s : State) (op : Op) (rk : Nat → Nat) : Reach s → Ranked rk s → OpOK rk s op →
+      (step Cfg.fixed s op).1.oof = false → (step Cfg.fixed s op).1.stuck = false →
+      Reach (step Cfg.fixed s op).1
+
+/-- what the induction over operation lists carries: structure, acyclicity, accounting, flags -/
+theorem reach_inv (s : State) (h : Reach s) : WF s ∧ (∃ rk, Ranked rk s) ∧ AcctInv s ∧ FlagsInv s := by
+  induction h with
+  | init => exact ⟨wf_empty, ⟨fun _ => 0, ranked_empty _⟩, af_empty.1, af_empty.2⟩
+  | step s op rk _ hrk hop hoof hstuck ih =>
+    obtain ⟨w, -, ac, fl⟩ := ih
+    obtain ⟨h1, h2⟩ := step_wf Cfg.fixed rfl op w hrk hop hoof hstuck
+    obtain ⟨h3, h4⟩ := step_acct op w hrk ⟨ac, fl⟩ hop hoof hstuck
+    exact ⟨h1, h2, h3, h4⟩
+
+/-- **cur_eq_charge** — THE accounting invariant, for every reachable state of the repaired
+code: every `.memlimit` chunk `l` of a context `ctx` records exactly the charge
+`ALIGN(size) + sizeof(struct THeader)` of every chunk beneath `ctx` (user objects, TRef chunks,
+nested `.memlimit` chunks; `l` itself excepted) — under talloc_size / talloc_from_cx (also
+refused or failing), talloc_free with refusing destructors and `throw_child`, talloc_unlink
+with promotion to a referencing context, talloc_free_children, talloc_reference,
+talloc_steal / talloc_reparent, talloc_realloc (grow, shrink, failing, size 0),
+talloc_set_destructor, talloc_set_memlimit (new, re-configured on a populated context, lifted,
+nested) and talloc_enable_null_tracking.  Both forms: the Bool the driver evaluates, and the
+explicit sum. -/
+theorem cur_eq_charge (s : State) (h : Reach s) :
+    acctOK s = true ∧
+    ∀ (l : Nat) (lb : Obj) (ctx : Nat), s.get l = some lb → lb.kind = .limit → lb.parent = some ctx →
+      lb.lcur = chargeUnder s ctx l := by
+  obtain ⟨w, ⟨rk, wr⟩, ac, -⟩ := reach_inv s h
+  exact ⟨(acctOK_iff w.toWFp.tree wr).2 ac, ac⟩
+
+/-- non-vacuity: nested limits (object 1: 100000, object 2 inside it: 5000, set when 2 already
+has a child), realloc, a reference from outside the limits, then `talloc_free(2)`: object 4 is
+promoted to the referencing context 6 outside both limits.  Before the free the outer counter
+is 152 + 104 + 96 = 352 (object 2, the inner `.memlimit` chunk, object 4) and the inner one 96;
+afterwards nothing is beneath 1.  Ghost flags stay clear. -/
+example :
+    let ops : List Op := [.alloc none 0 false false, .alloc (some 0) 100 false false,
+      .alloc (some 1) 50 false false, .setLimit 1 100000 false, .alloc (some 2) 7 false false,
+      .setLimit 2 5000 false, .realloc (some 1) 2 61 false, .alloc (some 0) 0 false false,
+      .reference (some 6) 4 false, .setDtor 4 (.refuse 1)]
+    let s0 := runOps Cfg.fixed {} ops
+    let s := (step Cfg.fixed s0 (.free 2)).1
+    acctOK s0 = true ∧ (s0.get 3).map (·.lcur) = some 352 ∧ (s0.get 5).map (·.lcur) = some 96 ∧
+    acctOK s = true ∧ s.oof = false ∧ s.stuck = false ∧
+    (s.get 3).map (·.lcur) = some 0 ∧ s.live 4 = true ∧ s.live 2 = false ∧
+    (s.get 4).map (·.parent) = some (some 6) := by decide
+
+/-- non-vacuity: a child whose destructor refuses survives `talloc_free` of its limited parent:
+`throw_child` hands it to the grandparent, outside the limit; the limit of the grandparent
+(object 0: 50000) keeps counting it -/
+example :
+    let s := runOps Cfg.fixed {} [.alloc none 0 false false, .setLimit 0 50000 false,
+      .alloc (some 0) 0 false false, .setLimit 2 10000 false, .alloc (some 2) 1000 false false,
+      .setDtor 4 (.refuse 1), .free 2]
+    acctOK s = true ∧ s.live 4 = true ∧ s.live 2 = false ∧ (s.get 4).map (·.parent) = some (some 0) ∧
+    (s.get 1).map (·.lcur) = some 1088 := by decide
+
+/-- **no_drift**: two reachable states with the same tree — same objects, parents, sizes, flags
+and limits, whatever their histories (`absState` blanks exactly the counters and the
+destructor scripts) — admit exactly the same requests under every context.  Headroom is a
+function of what is beneath the limit now; nothing leaks and nothing is forgotten. -/
+theorem no_drift (s₁ s₂ : State) (h₁ : Reach s₁) (h₂ : Reach s₂) (habs : absState s₁ = absState s₂)
+    (ctx : Option Id) (n : Nat) : admits Cfg.fixed s₁ ctx n = admits Cfg.fixed s₂ ctx n := by
+  obtain ⟨w, ⟨rk, wr⟩, ac, -⟩ := reach_inv s₂ h₂
+  obtain ⟨-, -, ac', -⟩ := reach_inv s₁ h₁
+  exact admits_absEq (rk := rk) (rk' := rk) (absEq_of_absState_eq habs) w.toWFp.tree wr ac ac' ctx n
+
+/-- non-vacuity of `no_drift`: a limited context that has seen an allocation and a realloc of
+the same final size ends in the same tree as one that allocated that size at once -/
+example :
+    absState (runOps Cfg.fixed {} (setup ++ [.alloc (some 1) 10 false false, .realloc (some 1) 4 500 false])) =
+    absState (runOps Cfg.fixed {} (setup ++ [.alloc (some 1) 500 false false])) := by decide
+
+/-- **moved_in_charge_released**: after any operation that moves chunks across a limit —
+talloc_steal / talloc_reparent in or out, promotion to a referencing context when the primary
+parent lets go, `throw_child` of a refusing child — the counters are again the sums over the
+tree *as it is now* (`chargeUnder` of the new state): what moved out is released from the
+limit it left, what moved in is charged to the limit it entered, with the same
+`ALIGN(size) + header` per chunk that allocation charged.  (Corollary of `cur_eq_charge`.) -/
+theorem moved_in_charge_released (s : State) (h : Reach s) (op : Op) (rk : Nat → Nat) (hrk : Ranked rk s)
+    (hop : OpOK rk s op) (hoof : (step Cfg.fixed s op).1.oof = false)
+    (hstuck : (step Cfg.fixed s op).1.stuck = false) :
+    acctOK (step Cfg.fixed s op).1 = true ∧
+    ∀ (l : Nat) (lb : Obj) (ctx : Nat), (step Cfg.fixed s op).1.get l = some lb → lb.kind = .limit →
+      lb.parent = some ctx → lb.lcur = chargeUnder (step Cfg.fixed s op).1 ctx l :=
+  cur_eq_charge _ (Reach.step s op rk h hrk hop hoof hstuck)
+
+/-- steal out releases `ALIGN(1000)+88 = 1088`, steal back in charges it again -/
+example :
+    let s := runOps Cfg.fixed {} (setup ++ [.alloc (some 1) 1000 false false])
+    (s.get 3).map (·.lcur) = some 1088 ∧
+    ((step Cfg.fixed s (.steal (some 2) 4)).1.get 3).map (·.lcur) = some 0 ∧
+    ((runOps Cfg.fixed s [.steal (some 2) 4, .steal (some 1) 4]).get 3).map (·.lcur) = some 1088 := by decide
+
+/-- **limit_zero_lifts**: `talloc_set_memlimit(o, 0)` on a reachable state answers 0; afterwards
+`o` carries no HAS flag and no `.memlimit` chunk hangs under it, so `apply_memlimit` passes `o`
+without a check (only limits of proper ancestors remain in force), and the accounting of those
+is exact (the released chunk is un-charged; `moved_in_charge_released` applies). -/
+theorem limit_zero_lifts (s : State) (h : Reach s) (o : Nat) (fail : Bool)
+    (ho : ∃ ob, s.get o = some ob ∧ ob.kind = .plain ∧ s.nullCtx ≠ some o) :
+    (step Cfg.fixed s (.setLimit o 0 fail)).2 = 0 ∧
+    (∃ ob', (step Cfg.fixed s (.setLimit o 0 fail)).1.get o = some ob' ∧ ob'.hasLim = false ∧
+      ∀ f, limitsAbove Cfg.fixed (f + 1) (step Cfg.fixed s (.setLimit o 0 fail)).1 (some o) =
+        if ob'.useLim then limitsAbove Cfg.fixed f (step Cfg.fixed s (.setLimit o 0 fail)).1 ob'.parent else []) ∧
+    (∀ (l : Nat) lb, (step Cfg.fixed s (.setLimit o 0 fail)).1.get l = some lb → lb.kind = .limit →
+      lb.parent ≠ some o) := by
+  obtain ⟨w, ⟨rk, wr⟩, -, fl⟩ := reach_inv s h
+  obtain ⟨h1, ⟨ob', h2, h3, -⟩, h4⟩ := setLimit_lift_spec Cfg.fixed w wr fl o fail ho
+  simp only [step]
+  exact ⟨h1, ⟨ob', h2, h3, fun f => limitsAbove_no_limit Cfg.fixed f _ o ob' h2 h3⟩, h4⟩
+
+/-- a context with limit 10000 refuses 20000 bytes; after lifting the limit it admits them -/
+example :
+    let s := runOps Cfg.fixed {} setup
+    admits Cfg.fixed s (some 1) 20000 = false ∧
+    admits Cfg.fixed (step Cfg.fixed s (.setLimit 1 0 false)).1 (some 1) 20000 = true := by decide
 
 /-! ## the accounting of the code as pinned drifts (F14) -/
 
